@@ -18,7 +18,7 @@ C05_MODULES = ["contracts.core_models", "contracts.c09_arith", "contracts.c09_bo
 
 C13_MODULES = ["contracts.core_models", "contracts.c09_bounded", "contracts.c13_types", "contracts.c13_views", "contracts.c13_array", "contracts.c13_refspec"]
 
-C06_MODULES = C05_MODULES + ["contracts.c13_types", "contracts.c13_views", "contracts.c06_names", "contracts.c06_ports", "contracts.c06_stmts", "contracts.c06_literals", "contracts.c02_ops", "contracts.c06_sensitivity", "contracts.c03_refvisit"]
+C06_MODULES = C05_MODULES + ["contracts.c13_types", "contracts.c13_views", "contracts.c06_names", "contracts.c06_ports", "contracts.c06_stmts", "contracts.c06_literals", "contracts.c02_ops", "contracts.c06_sensitivity", "contracts.c03_refvisit", "contracts.c06_text", "contracts.c06_library"]
 
 C02_MODULES = C05_MODULES + ["contracts.c13_types", "contracts.c13_views", "contracts.c02_ops", "contracts.c02_frontend", "contracts.c02_replace", "contracts.c02_assembler", "contracts.c03_lowering", "contracts.c13_refspec"]
 
@@ -81,7 +81,7 @@ PROPERTIES = {
     "C10": {
         "modules": ["contracts.core_models", "contracts.c02_frontend", "contracts.c10_frontend", "contracts.c10_subset"],
         "level": "other",
-        "explanation": "PROVED from the real source (tracer state abstracted to the calls the code makes): the comparison dispatch (nested single_compare: reflected method with swapped operands, 6 operators x implemented / NotImplemented on either side), the binary operator dispatch (nested overloaded_operator: lhs.__op__ first, rhs.__rop__ when that is missing or NotImplemented, rejection when neither applies), all()/any() over mixed constant / run-time elements (and/or yield the truth value; arrangements up to 3 elements), list and dict comprehensions with 0-2 conjunctive conditions over up to 3 elements (symbolic condition values). BOUNDED (labelled, never counted as proved): FunctionDefinition.bind_args against the CPython call itself for every signature shape (<= 2 positional-only, <= 2 positional-or-keyword, <= 2 keyword-only parameters, optional *args / **kwargs, all default patterns, functions and bound methods) and every call shape (<= n+1 positional arguments, <= 3 keywords incl. a foreign name): same binding, or a rejection exactly when CPython raises TypeError. Also PROVED: zero-argument super() binds to the __class__ cell of the defining class and the first argument (method of a middle class on an instance of a subclass). Also BOUNDED: PrepareAst._split_target against the CPython assignment statement (<= 5 targets, star anywhere or absent, sources of 0..7 elements: same split, rejection exactly on ValueError) and _ScopeBase._capture_env against LEGB (closure cell before module global before builtin, every placement of one free name).",
+        "explanation": "PROVED from the real source (tracer state abstracted to the calls the code makes): the comparison dispatch (nested single_compare: reflected method with swapped operands, 6 operators x implemented / NotImplemented on either side), the binary operator dispatch (nested overloaded_operator: lhs.__op__ first, rhs.__rop__ when that is missing or NotImplemented, rejection when neither applies), all()/any() over mixed constant / run-time elements (and/or yield the truth value; arrangements up to 3 elements), list and dict comprehensions with 0-2 conjunctive conditions over up to 3 elements (symbolic condition values). BOUNDED (labelled, never counted as proved): FunctionDefinition.bind_args against the CPython call itself for every signature shape (<= 2 positional-only, <= 2 positional-or-keyword, <= 2 keyword-only parameters, optional *args / **kwargs, all default patterns, functions and bound methods) and every call shape (<= n+1 positional arguments, <= 3 keywords incl. a foreign name): same binding, or a rejection exactly when CPython raises TypeError. Also PROVED: zero-argument super() binds to the __class__ cell of the defining class and the first argument (method of a middle class on an instance of a subclass). Also BOUNDED: PrepareAst._split_target against the CPython assignment statement (<= 5 targets, star anywhere or absent, sources of 0..7 elements: same split, rejection exactly on ValueError) and _ScopeBase._capture_env against LEGB (closure cell before module global before builtin, every placement of one free name). Added later: PROVED from the real source, the keyword collection of a call (apply_impl, ast.Call: explicit keywords and ** mappings in every order; a keyword given twice or a non-string key is rejected as CPython does) and the default values of local functions / lambdas (bound as the values CPython binds, in CPython's order); BOUNDED: bind_args leaves the caller's argument containers untouched (frame), the starred target is a list for list and tuple sources, the definition compiled for a functools.wraps wrapper is the wrapper's.",
         "assumptions": COMMON_ASSUME + [
             "bind_args only moves argument objects (it never inspects them): distinct marker objects per argument make each shape's comparison complete; shapes beyond the bound are not covered",
             "NOT decided: name classification (_ClassifyNames, ScopeRef), classes / inheritance / properties / __call__ emulation, subscripts, constant if / for / if-expressions, isinstance / type checks -- the remaining branches of the 1400-line apply_impl dispatcher and the whitelist of intrinsic builtins have no contract yet; 'all generated programs' is not approached by per-function contracts",
@@ -200,7 +200,7 @@ PROPERTIES = {
     "C11": {
         "modules": ["contracts.core_models", "contracts.c11_frames", "contracts.c06_sensitivity"],
         "level": "proof",
-        "explanation": "per-item reasons why compilation is history independent: (1) exception-safe frames -- the real bodies of the functions that set global scratch state (statemachine singleton, block stack, entity instantiation info) are executed symbolically with every uncontracted callee returning OR raising, and on every exit the state is proved restored; (2) Entity._library_declaration is proved to emit library clauses in order of first use without iterating a set of strings; (3) a mechanical, exhaustive inventory of every module/class-level state written from a function, each item classified (scratch / cache / registry / per-entity), an unclassified item makes the check undecided; (4) bounded stand-in: compile histories of length <= 2 over a pool of accepted and rejected designs and several hash seeds must give byte-identical output",
+        "explanation": "per-item reasons why compilation is history independent: (1) exception-safe frames -- the real bodies of the functions that set global scratch state (statemachine singleton, block stack, entity instantiation info) are executed symbolically with every uncontracted callee returning OR raising, and on every exit the state is proved restored; (2) Entity._library_declaration is proved to emit library clauses in order of first use without iterating a set of strings; (3) a mechanical, exhaustive inventory of every module/class-level state written from a function, each item classified (scratch / cache / registry / per-entity), an unclassified item makes the check undecided; (4) bounded stand-in: compile histories of length <= 2 over a pool of accepted and rejected designs and several hash seeds must give byte-identical output; (5) ConvertPythonInstance.__exit__ is proved to leave no cached function definition behind (the cache keeps the values of the globals a function used: its key does not determine its content) and to discard every instantiation info; the history pool contains one entity compiled under two values of a module global",
         "assumptions": COMMON_ASSUME + [
             "in exception-safety mode an uncontracted callee either returns an opaque value or raises; it does not itself modify the scratch state under consideration (callees that do are under contract: StatemachineContext.enter/finish are interpreted)",
             "byte-identity of the output for ARBITRARY histories is not decided as such: the frame obligations, the inventory classification and the bounded sweep are the per-item reasons it can fail",
@@ -250,14 +250,14 @@ PROPERTIES = {
     "C06": {
         "modules": C06_MODULES,
         "level": "proof",
-        "explanation": "clauses of C06 that are per-function facts are proved from the real source: name uniquification (complete_setup, loop invariants over uninterpreted strings: every name is new in its scope chain and against all reserved words), entity header names = architecture names, case statements end in `when others`, sensitivity join, cast typing (format_cast lemma shared with C05); two finite enumerations over the emitter source (reserved set covers every emitted predefined identifier; text templates have balanced parentheses)",
+        "explanation": "clauses of C06 that are per-function facts are proved from the real source: name uniquification (complete_setup, loop invariants over uninterpreted strings: every name is new in its scope chain and against all reserved words), entity header names = architecture names, case statements end in `when others`, sensitivity join, cast typing (format_cast lemma shared with C05); two finite enumerations over the emitter source (reserved set covers every emitted predefined identifier; text templates have balanced parentheses). Added later, all from the real source: every declared name is a VALID identifier (uninterpreted predicate; known facts: the result of VhdlScope._valid_identifier is valid -- BOUNDED exhaustive sweep against the LRM grammar -- and a valid identifier followed by a positive decimal counter is valid); case statements / selected assignments only return when their choice texts are pairwise distinct (symbolic strings); comment texts and assertion messages cannot leave their comment / string literal (enumerated texts with every line-break character and quotation marks); library clauses cover extern entities; port-less entities get no empty port clause and a terminated instantiation statement; user reserved names are honoured case-insensitively",
         "assumptions": COMMON_ASSUME + VHDL_ASSUME + [
-            "strings are uninterpreted (sort Str with lower/strip/concat/str(int) uninterpreted): no character-level reasoning; user names are assumed to be VHDL basic identifiers up to leading/trailing underscores",
+            "strings are uninterpreted (sort Str with lower/strip/concat/str(int) uninterpreted): no character-level reasoning inside complete_setup; the character-level fact (VhdlScope._valid_identifier returns a basic identifier) is a bounded exhaustive check over strings of length <= 4 (quick) / 5 (thorough) over one representative per character class, not a proof",
             "termination of the doubling loop of the name search is not proved",
             "expression / block writers are separate units: in statement-level contracts they only produce opaque text",
-            "NOT decided: that a standards-conforming tool accepts the whole text; distinctness of user-written case choices; completeness of the inferred sensitivity list (closure inside VhdlAssembler.apply); output ports never read (AliasScope) -- no contract yet",
+            "NOT decided: that a standards-conforming tool accepts the whole text; names of enumeration literals; completeness of the inferred sensitivity list (closure inside VhdlAssembler.apply); output ports never read (AliasScope) -- no contract yet",
         ],
-        "extra": ["contracts.c06_extra.reserved_covers_emitted", "contracts.c06_extra.balanced_templates"],
+        "extra": ["contracts.c06_extra.reserved_covers_emitted", "contracts.c06_extra.balanced_templates", "contracts.c06_extra.identifier_sweep"],
         "canaries": [
             {"name": "halving-loop-case", "contract": "cohdl._compiler.backend.vhdl._vhdl_repr:VhdlScope.complete_setup", "case": "signal-named-top", "file": "cohdl/_compiler/backend/vhdl/_vhdl_repr.py",
              "old": "                    if name.lower() not in used_names:\n                        cnt -= step", "new": "                    if name not in used_names:\n                        cnt -= step"},
